@@ -15,7 +15,7 @@ RULE = ('JSON values generated recursively (null, booleans, integers incl. huge,
         '0.000001, each string character raw or as one of its JSON escapes (\\" \\\\ \\/ \\b \\f \\n \\r \\t \\uXXXX, '
         'surrogate pairs for astral characters; a quarter of the characters from a pool of text that is in no Unicode normalisation form), arbitrary JSON white space; content restricted to what is valid in both '
         'JSON and an ES5 string literal. Contexts: var x = V; x = V; var x = V inside function f(){}; two bindings in one '
-        'statement; the same name bound twice by var then assignment and by assignment then var (the last binding is what the dictionary holds); x fold_ops in {False, True}. Oracle: ast_to_dict(parse(ctx(V)), fold_ops) holds under the name '
+        'statement; the same name bound twice by var then assignment and by assignment then var (the last binding is what the dictionary holds); x fold_ops in {False, True}; every tree is converted a second time after the caller has emptied and refilled every container of the first result. Oracle: ast_to_dict(parse(ctx(V)), fold_ops) holds under the name '
         'exactly json.loads(V) by typed equality (bool/int/float distinguished, sign of zero, strings by code point) '
         'and the dictionary has exactly the expected keys. non-trivial = nesting depth >= 2, or a negative/fractional '
         'number, or an escaped character; distinct by (text, context, fold_ops)')
@@ -222,7 +222,31 @@ def _check(acc, opens, ctx, v, v2, fold, top=False):
         acc.fail(classify(v, v2, ctx, fold) if top else None, case, {'bucket': 'value_differs', 'source': src, 'got': repr(d)[:300],
                                          'expected': repr(expect)[:300]}, opens)
         return False
+    # the dictionary is the caller's: whatever is done to it, converting the same tree again gives the value again
+    _scribble(d)
+    try:
+        d2 = ast_to_dict(c[1], fold_ops=fold)
+    except Exception as e:
+        acc.fail(None, case, {'bucket': 'second_extract_raises:' + type(e).__name__, 'source': src, 'error': repr(e)[:200]}, opens)
+        return False
+    if not typed_eq(d2, expect):
+        acc.fail(None, case, {'bucket': 'second_conversion_differs', 'source': src, 'got': repr(d2)[:300],
+                              'expected': repr(expect)[:300]}, opens)
+        return False
     return True
+
+
+def _scribble(x):
+    if isinstance(x, dict):
+        for v in list(x.values()):
+            _scribble(v)
+        x.clear()
+        x['scribbled'] = [1]
+    elif isinstance(x, list):
+        for v in x:
+            _scribble(v)
+        del x[:]
+        x.append({'scribbled': None})
 
 
 def classify(v, v2, ctx=None, fold=None):
